@@ -119,13 +119,28 @@ var (
 // ParseTrace turns strace -f -o output into calls (unfinished/resumed pairs are joined).
 func ParseTrace(raw string) (calls []TraceCall, killed bool, stops int) {
 	pending := map[int]*TraceCall{}
+	// One SIGSTOP stops the whole thread group and strace logs one "stopped" line per
+	// thread, at slightly different moments. The number of stops is therefore the largest
+	// per-thread count, not the number of lines: a straggler's line for the previous stop
+	// must not look like a new park.
+	perThread := map[string]int{}
+	defer func() {
+		stops = 0
+		for _, n := range perThread {
+			if n > stops {
+				stops = n
+			}
+		}
+	}()
 	for _, line := range strings.Split(raw, "\n") {
 		if strings.Contains(line, "+++ killed by SIGKILL +++") {
 			killed = true
 			continue
 		}
 		if strings.Contains(line, "--- stopped by SIGSTOP ---") {
-			stops++
+			if f := strings.Fields(line); len(f) > 0 {
+				perThread[f[0]]++
+			}
 			continue
 		}
 		if m := reCall.FindStringSubmatch(line); m != nil {
